@@ -43,6 +43,22 @@ EMPTY_A = {"cfg": "", "tokens": [], "scopes": [], "functions": [], "variables": 
 EMPTY_B = {"cfg": "", "tokens": [], "scopes": [], "functions": [], "variables": []}
 
 T0 = time.time()
+LATE_FILES = {
+    "designated.c": """enum color { RED, GREEN, BLUE, NCOLORS };
+#define LAST 4
+static const char *const color_name[] = { [RED] = "red", [GREEN] = "green", [BLUE] = "blue" };
+static const int weight[] = { [BLUE] = 7, [RED] = 1 };
+static int spread[] = { [LAST] = 1, [1] = 2 };
+static int sums[] = { [RED + 2] = 3 };
+const char *name_of(enum color c) { if (c >= NCOLORS) return "?"; return color_name[c]; }
+int weight_of(enum color c) { return (c < NCOLORS) ? weight[c] + spread[1] + sums[2] : 0; }
+""",
+    "designated.cpp": """enum { A0, A1, A2 };
+static const int tab[] = { [A2] = 5, [A0] = 1 };
+int get(int i) { return (i >= 0 && i <= A2) ? tab[i] : 0; }
+""",
+}
+
 NPROC_CPPCHECK = 6
 NPROC_TLC = 4
 
@@ -178,6 +194,11 @@ def base_inputs(tier, seed):
     # multi-configuration files: the hand-written ones and excerpts whose functions are wrapped into conditionals
     for name, text in sorted(IFDEF_FILES.items()):
         inputs.append(_mk("ifdef/" + name, "ifdef", name, {name: text}, []))
+    # constructs for which cppcheck changes the token list AFTER the AST, the symbol database and the values exist (late passes
+    # have to keep every structure consistent by hand): array sizes computed from designated initialisers whose designators
+    # are constants, not literals
+    for name, text in sorted(LATE_FILES.items()):
+        inputs.append(_mk("late/" + name, "ifdef", name, {name: text}, []))
     pool = [x for x in cfg_ex if x["stratum"] == "cfg"]
     for k in range(8 if tier == "quick" else 150):
         src = pool[rng.randrange(len(pool))]
